@@ -37,7 +37,10 @@ var intMagnitudes = func() []*big.Int {
 	var r []*big.Int
 	for _, s := range []string{"0", "1", "2", "7", "8", "9", "10", "15", "16", "100", "126", "127", "128", "129", "254", "255", "256", "257",
 		"32767", "32768", "32769", "65535", "65536", "2147483647", "2147483648", "2147483649", "4294967295", "4294967296",
-		"9223372036854775807", "9223372036854775808", "9223372036854775809", "18446744073709551615", "18446744073709551616", "1000000000000000000000000000000"} {
+		"9223372036854775807", "9223372036854775808", "9223372036854775809", "18446744073709551615", "18446744073709551616", "1000000000000000000000000000000",
+		"18446744073709551617", "18446744078004518912", "20000000000000000000", "20496382304121724017", "25000000000000000000", "30000000000000000000", "36893488147419103231",
+		"36893488147419103232", "36893488147419103233", "50000000000000000000", "99999999999999999999", "100000000000000000000", "184467440737095516150", "73786976294838206464",
+		"1180591620717411303424", "170141183460469231731687303715884105727", "340282366920938463463374607431768211456", "13835058055282163712", "27670116110564327424"} {
 		v, _ := new(big.Int).SetString(s, 10)
 		r = append(r, v)
 	}
@@ -281,42 +284,60 @@ func nearMax(k ref.Kind, r *big.Rat) bool {
 	return a.Cmp(lim) > 0 && a.Cmp(up) <= 0
 }
 
-// runLiteral builds the text for literal l in position pos of a 3-element item of kind k and checks it.
-func runLiteral(c *h.Ctx, k ref.Kind, l literal, pos int, lower bool) string {
-	filler := map[bool]string{true: "1", false: "1"}[true]
-	fillElem := ref.Elem{I: 1, U: 1, F: 1}
-	switch k {
-	case ref.BOOLEAN:
-		filler, fillElem = "T", ref.Elem{T: true}
-	case ref.A:
-		filler = `"z"`
-	case ref.L:
-		filler = "<U1 1>"
-	}
-	toks := []string{filler, filler, filler}
-	if pos == 3 { // single element
-		toks = []string{l.Text}
-	} else {
-		toks[pos] = l.Text
-	}
-	head, typ, end := "S1F1 W H->E n\n<", k.String(), ">\n."
-	if lower {
-		head, typ = "s1f1 w h->e n\n<", strings.ToLower(typ)
-	}
-	text := head + typ + " " + strings.Join(toks, " ") + end
+// runLiteralPair puts the SAME literal text into two items of different (or equal) types inside one
+// message: each item must be judged on its own (no state shared between conversions of one input).
+func runLiteralPair(c *h.Ctx, ka, kb ref.Kind, l literal) string {
+	text := "S1F1 W H->E n\n<L <" + ka.String() + " " + l.Text + "> <" + kb.String() + " " + l.Text + ">>\n."
 	ms, errs, _, pan := smlRun(text)
 	c.Ops(1)
 	in := fmt.Sprintf("sml.Parse(%s)", strconv.Quote(text))
-	cls := fmt.Sprintf("%s-literal-in-%s", l.Class, k)
+	cls := fmt.Sprintf("%s-literal-in-%s-then-%s", l.Class, ka, kb)
 	if pan != "" {
 		c.Fail("panic:"+cls, in, pan)
 		return "panic"
 	}
-	if len(errs) > 0 && len(ms) > 0 {
-		c.Fail("messages-with-errors", in, fmt.Sprint(errs))
+	va, wa := expectItem(ka, l, 3)
+	vb, wb := expectItem(kb, l, 3)
+	if va == vError || vb == vError {
+		if len(errs) == 0 {
+			c.Fail("silently-accepted:"+cls, in, fmt.Sprintf("stored %q", body(ms[0].String())))
+			return "bad"
+		}
+		return "error-as-expected"
+	}
+	if len(errs) > 0 {
+		if va == vValue && vb == vValue {
+			c.Fail("refused-valid:"+cls, in, fmt.Sprint(errs))
+			return "bad"
+		}
+		return "either-error"
+	}
+	if len(ms) != 1 {
+		c.Fail("message-count:"+cls, in, fmt.Sprint(len(ms)))
 		return "bad"
 	}
-	// expectation
+	got := body(ms[0].String())
+	if len(wa) == 0 || len(wb) == 0 {
+		return "either-accepted-unjudged"
+	}
+	for _, x := range wa {
+		for _, y := range wb {
+			if got == ref.Print(ref.List(x, y))+"\n." {
+				return "value-as-expected"
+			}
+		}
+	}
+	c.Fail("silent-substitution:"+cls, in, fmt.Sprintf("stored %q; the literal denotes %q then %q", got, ref.Print(wa[0]), ref.Print(wb[0])))
+	return "bad"
+}
+
+// expectItem computes the expectation for literal l at position pos (3 = single element) of an item of kind k
+// whose other elements are the fillers used by runLiteral.
+func expectItem(k ref.Kind, l literal, pos int) (int, []*ref.Node) {
+	fillElem := ref.Elem{I: 1, U: 1, F: 1}
+	if k == ref.BOOLEAN {
+		fillElem = ref.Elem{T: true}
+	}
 	verdict := vValue
 	var wants []*ref.Node
 	mk := func(e ref.Elem) *ref.Node {
@@ -400,6 +421,45 @@ func runLiteral(c *h.Ctx, k ref.Kind, l literal, pos int, lower bool) string {
 			wants = append(wants, mk(e))
 		}
 	}
+	return verdict, wants
+}
+
+// runLiteral builds the text for literal l in position pos of a 3-element item of kind k and checks it.
+func runLiteral(c *h.Ctx, k ref.Kind, l literal, pos int, lower bool) string {
+	filler := "1"
+	switch k {
+	case ref.BOOLEAN:
+		filler = "T"
+	case ref.A:
+		filler = `"z"`
+	case ref.L:
+		filler = "<U1 1>"
+	}
+	toks := []string{filler, filler, filler}
+	if pos == 3 { // single element
+		toks = []string{l.Text}
+	} else {
+		toks[pos] = l.Text
+	}
+	head, typ, end := "S1F1 W H->E n\n<", k.String(), ">\n."
+	if lower {
+		head, typ = "s1f1 w h->e n\n<", strings.ToLower(typ)
+	}
+	text := head + typ + " " + strings.Join(toks, " ") + end
+	ms, errs, _, pan := smlRun(text)
+	c.Ops(1)
+	in := fmt.Sprintf("sml.Parse(%s)", strconv.Quote(text))
+	cls := fmt.Sprintf("%s-literal-in-%s", l.Class, k)
+	if pan != "" {
+		c.Fail("panic:"+cls, in, pan)
+		return "panic"
+	}
+	if len(errs) > 0 && len(ms) > 0 {
+		c.Fail("messages-with-errors", in, fmt.Sprint(errs))
+		return "bad"
+	}
+	// expectation
+	verdict, wants := expectItem(k, l, pos)
 	// compare
 	switch verdict {
 	case vError:
@@ -543,6 +603,25 @@ func init() {
 						l.Text, l.Rat, l.Neg = "-"+m.text, new(big.Rat).Neg(m.rat), true
 					}
 					c.Case(h.DigestS(l.Text, m.k.String()), true, runLiteral(c, m.k, l, int(i%3), false))
+				}})
+			// the same literal text in two items of one message (every ordered pair of the 13 scalar types)
+			pl := []literal{}
+			for _, l := range append(intLiterals(), floatLiterals()...) {
+				switch l.Text {
+				case "0.1", "1", "255", "-0", "-1", "0x10", "1e39", "1.5", "16777217", "3.4028235e39", "0.7", "+5", "256", "65536", "2.4e-45", "9007199254740993":
+					pl = append(pl, l)
+				}
+			}
+			pl = append(pl, literal{Text: "T", Class: "bool", Bool: true}, literal{Text: `"a"`, Class: "string", Str: "a"})
+			nk := len(ref.ScalarKinds)
+			sp = append(sp, h.Space{Name: "same-literal-in-two-items-of-one-message", Count: uint64(len(pl) * nk * nk),
+				Describe: func(i uint64) interface{} {
+					d := unrank(i, len(pl), nk, nk)
+					return fmt.Sprintf("<L <%s %s> <%s %s>>", ref.ScalarKinds[d[1]], pl[d[0]].Text, ref.ScalarKinds[d[2]], pl[d[0]].Text)
+				},
+				Run: func(c *h.Ctx, i uint64) {
+					d := unrank(i, len(pl), nk, nk)
+					c.Case(0, true, runLiteralPair(c, ref.ScalarKinds[d[1]], ref.ScalarKinds[d[2]], pl[d[0]]))
 				}})
 			// every 1- and 2-character printable ASCII string (minus the quote), verbatim
 			const lo, hi = 32, 126
